@@ -42,7 +42,7 @@ CHECKS = {
     'C10': ('proof', 'Theorems C10_perm_invariant (any permutation of readers with distinct IDs sorts to the same list), C10_numeric '
             '(ascending in the numeric ID), C10_collection_merge_perm_invariant (end to end: readers, sorting, validation and merge loop give the same outcome for every ordering of the documents, both modes, any oracles), C10_sort_stable (equal IDs keep the supplied order, as Python's sorted). Correspondence: all permutations of order-sensitive message sets with mixed digit counts.',
             'section 5 C10', 'Coq theorems (sortedness + permutation uniqueness) + exhaustive permutations'),
-    'C11': ('proof', 'Theorems C11_accept_iff, C11_selected and C11_accept_multiset (acceptance is invariant under permutation of the readers) proved in Coq for the model validation; exhaustive multisets run through the '
+    'C11': ('proof', 'Theorems C11_accept_iff, C11_selected and C11_accept_multiset (acceptance is invariant under permutation of the readers) and C11_partition (the readers are exactly the selected roCreate plus the others, none of which is a roCreate) proved in Coq for the model validation; exhaustive multisets run through the '
             'real constructor under default flags and python -O (kinds interleaved in message-ID order, roCreate of every inner shape, padded / blank / missing roIDs); allow_incomplete given and left out through every construction route; documents supplied twice; completed roCreate documents.',
             'section 5 C11', 'Coq theorems + exhaustive small collections under two interpreter configurations'),
     'C12': ('proof', 'Theorems C12_classify, C12_merge (all 25 classes: outcome is success, MosMergeError or MosCompletedMergeError under '
